@@ -163,7 +163,7 @@ def single_defs(fn_node) -> dict:
         if isinstance(n, ast.Assign):
             for t in n.targets:
                 for x in ast.walk(t):
-                    if isinstance(x, ast.Name):
+                    if isinstance(x, ast.Name) and isinstance(x.ctx, ast.Store):
                         cnt[x.id] = cnt.get(x.id, 0) + 1
                         if len(n.targets) == 1 and x is t:
                             val[x.id] = n.value
